@@ -16,20 +16,20 @@ CLAIMED = {
         "that uses the gates is not verified.",
    note="Trusted: the skeleton of visit_dir around the gates (T5), canonical_path/calc_depth, read_dir. Not covered: exactly-once, order, "
         "symlinks, root parsing."),
- "C02": dict(engine="F", ref="5/C02",
-   technique="Kani full-domain harnesses on the typed comparison arms of conforms and the BETWEEN desugaring, extracted each run",
+ "C02": dict(engine="F+V", ref="5/C02",
+   technique="Kani full-domain harnesses on the typed comparison arms of conforms and the BETWEEN desugaring (extracted each run) + Verus contract on the real parse_func_scalar (quoted literal)",
    text="The Int / Float / Bool / DateTime comparison tables of conforms (whole match arms incl. operand binding) and the BETWEEN "
         "desugaring of parse_cond are proved equal to the documented relation for every operator and all i64 / non-NaN f64 / bool "
         "operands (no bound).",
    note="Trusted: get_field_value (which attribute), Variant coercions, string/regex arm, wiring of the fragments (T5)."),
- "C03": dict(engine="K+F", ref="5/C03",
-   technique="Kani function contract on Op::negate + full-domain harnesses on comparison arms, logical block and NOT BETWEEN fragments",
+ "C03": dict(engine="K+F+V", ref="5/C03",
+   technique="Kani function contract on Op::negate + full-domain harnesses on comparison arms, logical block, NOT BETWEEN; Verus proof of De Morgan on the real negate_expr_op (unbounded tree depth)",
    text="Op::negate is proved (contract) to return the documented complement for all 14 operators; for every comparison operator and "
         "all operands each typed arm under negate(op) is the logical negation of the arm under op; the logical block computes AND/OR; "
         "NOT BETWEEN is the complement of BETWEEN for all i64 triples.",
    note="Trusted: parser tree shape (precedence, brackets), string arm; float arm stated for non-NaN operands."),
- "C06": dict(engine="F", ref="5/C06",
-   technique="Kani full-domain harnesses on the two early-exit conditions of visit_dir extracted each run",
+ "C06": dict(engine="F+V", ref="5/C06",
+   technique="Kani full-domain harnesses on the two early-exit conditions of visit_dir (extracted each run) + Verus contract on the real parse_limit",
    text="Both LIMIT early-exit conditions (directory loop, archive-member loop) are proved to be exactly "
         "!buffered && limit > 0 && found >= limit for all inputs: never taken for ordered/aggregated output or limit 0.",
    note="Trusted: found accounting, TopN (BTreeMap: out of reach), is_buffered definition."),
@@ -38,10 +38,10 @@ CLAIMED = {
    text="The division in get_mean is proved to be the real quotient sum/count (bounded domain sum < 256, count <= 16: symbolic f64 "
         "division does not terminate beyond it); labelled bounded in the evidence.",
    note="Bounded stand-in, not an unbounded proof. Not covered: MIN/MAX/COUNT/variance arms."),
- "C10": dict(engine="F", ref="5/C10",
-   technique="Kani full-domain harness on the exit-status mapping extracted from exec_search",
-   text="error_count -> exit status is proved to be 0 iff no error else 1 for all i32, and the parse-error arm to return 2.",
-   note="Only the status mapping so far; parser panic-freedom (Verus) is added separately."),
+ "C10": dict(engine="V+F", ref="5/C10",
+   technique="Verus contracts on 17 real parser methods (panic freedom, cursor frame, Ok => Some), modular and unbounded; Kani harness on the exit-status mapping",
+   text="17 real methods of impl Parser, extracted verbatim on every run, are proved free of unwrap-on-None/Err, out-of-range indexing and usize underflow for every token vector, each against its callees' contracts (cursor never moves backwards, token vector unchanged, Ok implies Some). error_count -> exit status is proved to be 0 iff no error else 1 for all i32, and the parse-error arm to return 2.",
+   note="Not covered: termination (exec_allows_no_decreases_clause), parse_fields/parse_roots/parse_root_options/the lexer, evaluator-side literal errors. Assumption A1: cursor < usize::MAX."),
  "C13": dict(engine="F", ref="5/C13",
    technique="Kani full-domain harnesses on the DateTime arm of conforms extracted each run",
    text="For all i64 entry times and all intervals a <= b the date arm is proved to implement = / != / < / > / <= / >= exactly as the "
@@ -51,10 +51,17 @@ CLAIMED = {
    technique="Kani harness on the operator table of ArithmeticOp::calc extracted each run (bounded: concrete witnesses)",
    text="Operator dispatch of + - * / checked on 8 concrete witness pairs (symbolic f64 arithmetic does not terminate in CBMC); bounded.",
    note="Bounded stand-in. Not covered: precedence/associativity, column independence (Display for Expr), %."),
+
+ "C05": dict(engine="V", ref="5/C05",
+   technique="Verus contract (ensures + loop invariant) on the real parse_order_by extracted verbatim each run",
+   text="On the real parse_order_by: key list and direction list have equal length on every successful parse, positional keys are "
+        "proved in range before indexing and `desc` without a preceding key is rejected (no underflow), for every token vector.",
+   note="Only the ORDER BY clause parser so far. Not covered: that buffered rows come out in Criteria order (TopN/BTreeMap out of reach), "
+        "numeric/date key comparison."),
 }
 PENDING = "no contract-based check built yet in this revision (planned: DESIGN.md section 5)"
 NOT_APPLICABLE = {
- "C05": PENDING, "C09": PENDING,
+ "C09": PENDING,
  "C11": PENDING, "C12": PENDING, "C14": PENDING, "C16": PENDING,
  "C08": "GROUP BY partitioning lives in iterator-adapter closures over HashMap<Vec<String>, Vec<HashMap<String,String>>>: Verus rejects the adapters, CBMC does not finish two string-keyed rows; no closed fragment carries the partition property (DESIGN.md section 6)",
  "C17": "fault isolation is about read_dir/open failures, closed pipes and the process exit status (OS behaviour); the only closed fragment (error_count -> status) is proved under C10 and does not decide C17",
